@@ -38,6 +38,8 @@ func runC03(p *Prog, r *Report) {
 	candidatesUnfilteredRule(p, r, "C03.R11")
 	registerUpdateRule(p, r, "C03.R12")
 	assignabilityRule(p, r, "C03.R14")
+	componentRecursionRule(p, r, "C03.R15")
+	precedenceRule(p, r, "C03.R16", "SkipCopy")
 	cloneBeforeExtendRule(p, r, "C03.R13", p.Chains())
 	matchesCompleteRule(p, r, "C03.R10", "the input would be rejected (or converted by a different rule) although the documented rules define it")
 	// R6
